@@ -228,5 +228,7 @@ def extra_runs(tier, rng, ctx):
         a = parse_alloc(i.split("\t#", 1)[1]) if i and "\t#" in i else None
         if a:
             worst = max(worst, a[0])
-    return [], {"largest_single_allocation_observed": worst, "covered_entry_points": ["valve::query", "quake one/two/three", "unreal2::query"],
-                "covered_by_measurement_only": ["eco (HTTP, loopback web server)", "gamespy one/two/three", "ffow", "savage2", "jc2m", "mindustry", "theship", "battalion1944"]}
+    return [], {"largest_single_allocation_observed": worst,
+                "covered_entry_points": ["valve::query", "theship", "battalion1944", "quake one/two/three", "unreal2::query", "gamespy one/two/three (+ variables-only)", "jc2m", "savage2",
+                                         "mindustry", "minecraft bedrock / java / legacy / auto"],
+                "covered_by_measurement_only": ["eco (HTTP, loopback web server)", "ffow"]}
